@@ -264,6 +264,25 @@ pub fn random_plan(rng: &mut Rng, len: usize, marks: &[usize], drain_weight: u32
     let cuts = gen::cuts(rng, len, marks);
     let mut ends = cuts;
     ends.push(len);
+    // Zero-length pieces (an empty slice handed to encode / decode in the
+    // middle of a message): repeat some piece ends, and sometimes start with
+    // an empty piece.
+    if rng.chance(1, 3) {
+        let mut with_empty = Vec::with_capacity(ends.len() + 4);
+        if rng.chance(1, 4) {
+            with_empty.push(0);
+        }
+        for e in ends {
+            with_empty.push(e);
+            if rng.chance(1, 5) {
+                with_empty.push(e);
+                if rng.chance(1, 4) {
+                    with_empty.push(e);
+                }
+            }
+        }
+        ends = with_empty;
+    }
     let one_method = if rng.chance(1, 4) { Some(*rng.pick(&METHODS)) } else { None };
     let mut plan = Vec::with_capacity(ends.len());
     let many = ends.len() > 64;
@@ -957,7 +976,12 @@ fn plan_bits(plan: &[PieceStep]) -> u64 {
 }
 
 fn count_plan_features(ctx: &mut Ctx, side: &str, plan: &[PieceStep]) {
+    let mut prev_end = 0usize;
     for s in plan {
+        if s.end == prev_end && s.end > 0 {
+            ctx.feature(&format!("codec.{}.zero_length_piece_in_the_middle", side));
+        }
+        prev_end = s.end;
         ctx.feature(&format!("codec.{}.method.{:?}", side, s.method));
         match s.drain {
             Drain::None => {}
